@@ -92,6 +92,12 @@ def gen_cases(ctx):
             else:
                 terms = [rand_string(rng, n) for _ in range(k + (1 if mode in ("sum_add_ps", "with_term") else 0))]
             mk(mode, n, terms, c=rand_coef(rng, "complex"), f=ctx.randf(-3, 3), split=rng.randrange(0, len(terms) + 1))
+    # the constant string (no factors) with a complex coefficient through every string-level operator: (c I)^dagger = conj(c) I
+    for mode in ("hconj", "ps_mul_c", "ps_mul_f", "f_mul_ps", "ps_add", "sum_add_ps", "with_term"):
+        for n in (1, 3):
+            const = {"ops": [], "coef": rand_coef(rng, "complex")}
+            terms = [const] if mode in ("hconj", "ps_mul_c", "ps_mul_f", "f_mul_ps") else [const, {"ops": [], "coef": rand_coef(rng, "complex")}] if mode == "ps_add" else [rand_string(rng, n, "complex"), const]
+            mk(mode, n, terms, c=rand_coef(rng, "complex"), f=ctx.randf(-3, 3), split=1)
     return cases
 
 def expected_alg(case):
